@@ -75,9 +75,16 @@ def posclass(framing, i, n):
     return 'pdu'
 
 
-def justified_set(framing, stream):
+def justified_set(framing, stream, side='req'):
     out = set()
     for s, e, p in adu.valid_frames_in(framing, stream):
+        if framing == 'tcp' and p['pdu'][:1] and (p['pdu'][0] & 0x7F) in pdu.SUPPORTED:
+            # TCP has no checksum: the integrity check is an MBAP length CONSISTENT WITH THE PDU, i.e. the
+            # bytes the length field delimits must be exactly one well-formed PDU of that function code
+            try:
+                pdu.decode(side, p['pdu'])
+            except Exception:   # noqa
+                continue
         out.add((p['unit'], bytes(p['pdu'])))
         if 'pdu_raw' in p:
             out.add((p['unit'], bytes(p['pdu_raw'])))
@@ -108,7 +115,7 @@ def run_case(acc, framing, side, stream, chunks, cls, kind, pc, wit_base, lay=No
     acc.inc('evaluations')
     if not delivered and ctx is None:
         return
-    just = justified_set(framing, stream)
+    just = justified_set(framing, stream, side)
     for unit, raw, cname in delivered:
         if (unit, raw) not in just:
             acc.violation('C07/%s/%s/%s/%s' % (framing, kind, pc, cname), dict(wit_base, stream=stream.hex(), chunks=[len(c) for c in chunks]),
@@ -201,7 +208,7 @@ def run(tier, seed):
                            'byte-by-byte, preceded / followed by a valid frame%s'
                            % ((24, 10, '16 boundary values', '') if tier == 'quick' else (48, 13, 'all 255 other values', ', between two valid frames byte-by-byte'))),
                 assumptions=['ref/adu.py decides integrity (bitwise CRC-16, LRC + hex digits, MBAP length = PDU length + 1)',
-                             'TCP has no checksum: any window whose MBAP length matches is integrity-valid by the property\'s definition'])
+                             'TCP has no checksum: a window is integrity-valid when its MBAP length delimits exactly one well-formed PDU (reference decoder)'])
 
 
 def replay(w):
